@@ -745,6 +745,105 @@ def work_trapjump(shard):
 
 
 # ---------------------------------------------------------------------------
+# loops that start (or lie entirely) in a THEN or ELSE branch of an IF line, inside and outside an outer loop whose
+# own search for its NEXT / WEND passes over them
+
+BL_OUTER = ('none', 'for', 'for0', 'while')
+BL_COND = ('T', 'F', 'var')
+BL_PART = ('print', 'for', 'while', 'for-open', 'while-open')
+
+
+def branchloop_cases():
+    out = []
+    for outer in BL_OUTER:
+        for cond in BL_COND:
+            if cond == 'var' and outer in ('none', 'for0'):
+                continue
+            for thenp in BL_PART[:3]:
+                for elsep in (None,) + BL_PART:
+                    for named in (True, False):
+                        if 'for' not in (thenp, elsep or '') and elsep != 'for-open' and outer not in ('for', 'for0') and not named:
+                            continue
+                        out.append((outer, cond, thenp, elsep, named))
+    return out
+
+
+def branchloop_lines(case):
+    outer, cond, thenp, elsep, named = case
+    ids = iter(range(1, 20))
+
+    def part(kind, var, mark):
+        """-> (statements in the branch, lines after the IF line that close an opener)"""
+        if kind == 'print':
+            return [('print', mark)], []
+        if kind in ('for', 'for-open'):
+            fid = next(ids)
+            head = [('for', fid, var, ('c', 1), ('c', 2), None)]
+            body = [('printv', var)]
+            close = [('next', [fid], [var] if named else None)]
+            return (head + body + close, []) if kind == 'for' else (head, [body, close])
+        wid = next(ids)
+        wv = 'W' + var
+        head = [('let', wv, ('c', 0)), ('while', wid, ('rel', '<', ('v', wv), ('c', 2)))]
+        body = [('let', wv, ('+', ('v', wv), ('c', 1))), ('print', mark)]
+        close = [('wend', wid)]
+        return (head + body + close, []) if kind == 'while' else (head, [body, close])
+
+    lines = []
+    closer = None
+    if outer in ('for', 'for0'):
+        fid = next(ids)
+        lines.append((10, [('for', fid, 'I', ('c', 1), ('c', 2 if outer == 'for' else 0), None)]))
+        closer = [('next', [fid], ['I'] if named else None)]
+    elif outer == 'while':
+        wid = next(ids)
+        lines.append((5, [('let', 'I', ('c', 0))]))
+        lines.append((10, [('while', wid, ('rel', '<', ('v', 'I'), ('c', 2))), ('let', 'I', ('+', ('v', 'I'), ('c', 1)))]))
+        closer = [('wend', wid)]
+    c = {'T': ('c', 1), 'F': ('c', 0), 'var': ('rel', '=', ('v', 'I'), ('c', 2))}[cond]
+    tst, tafter = part(thenp, 'J', 't')
+    ifline = [('if', c, None)] + tst
+    after = list(tafter)
+    if elsep is not None:
+        est, eafter = part(elsep, 'K', 'e')
+        ifline += [('else', None)] + est
+        after += eafter
+    lines.append((20, ifline))
+    n = 30
+    for st in after:
+        lines.append((n, st))
+        n += 5
+    lines.append((60, [('print', 'z')]))
+    if closer:
+        lines.append((70, closer))
+    lines.append((80, [('end',)]))
+    return lines
+
+
+def work_branchloops(shard):
+    part = Partial()
+    runner = Runner()
+    c = None
+    for case in shard:
+        case = tuple(case)
+        lines = branchloop_lines(case)
+        for layout in ('tight', 'spaced'):
+            MB.LAYOUT = layout
+            try:
+                c = {'branchloop': list(case), 'layout': layout, 'program': [t.decode('latin-1') for t in MB.program_text(lines)]}
+                outcomes, res = judge(part, runner, lines, c, lambda oc, rs: 'branchloop/%s/%s/exp-%s' % (
+                    case[0], 'else-' + case[3] if case[3] else 'then-' + case[2], final_kind(oc[0])))
+            finally:
+                MB.LAYOUT = 'tight'
+            part.n += 1
+            part.classes.add('branchloop/%s/%s/%s/%s/%s' % (case[0], case[1], case[2], case[3], final_kind(outcomes[0])))
+            part.outcome(final_kind(outcomes[0]))
+    if c:
+        part.sample(c)
+    return part
+
+
+# ---------------------------------------------------------------------------
 # loops typed in direct mode, one after the other in the same session: each behaves as it does in a fresh session
 
 DIRECT_LINES = [
@@ -840,6 +939,11 @@ def _legs_programs(ctx):
                    bound='all %d programs: %d-statement sequences over %d main-line statements (GOSUB / ON GOSUB / GOTO / '
                          'IF THEN to existing and missing lines, stray RETURN) x %d subroutine bodies under ON ERROR '
                          'GOTO with RESUME NEXT or one retry' % (len(tj), 2 if ctx.quick else 3, len(TJ_MAIN), len(TJ_SUB))))
+    bl = branchloop_cases()
+    out.append(Leg('branch-loops', list(chunked(bl, 40)), work_branchloops, exhaustive=True,
+                   bound='all %d programs: an IF line whose THEN / ELSE branch holds a PRINT, a complete FOR or WHILE loop, or only '
+                         'the opening of one (body and NEXT / WEND on the following lines) x condition true / false / on the outer counter '
+                         'x no outer loop / FOR / zero-trip FOR / WHILE around it x NEXT with and without variable, 2 layouts' % len(bl)))
     out.append(Leg('step0', list(chunked(step0_cases(), 8)), work_step0, exhaustive=True,
                    bound='45 STEP 0 loops (crash freedom only; unspecified)'))
     return out
@@ -867,6 +971,10 @@ def replay(ctx, leg, case):
             cs = (sig, int(Fr(a)), int(Fr(b)), None if s is None else int(Fr(s)), shape)
         lines = forparam_lines(cs, case['variant'])
         judge(part, runner, lines, case, lambda oc, rs: _key('forparam', _culprit(['replay'], oc, rs)))
+    elif leg == 'branch-loops':
+        part = work_branchloops([case['branchloop']])
+        part.viol = [v for v in part.viol if v[2].get('layout') == case.get('layout')]
+        return part
     elif leg == 'trapjump':
         m, sub, res = case['trapjump']
         lines = trapjump_lines((tuple(m), sub, res))
